@@ -21,7 +21,7 @@ def gen_cache(r, data):
     ways = r.choice([1, 2, 4]) if strat == "plru" else r.choice([1, 1, 2, 3, 4])
     return {
         "ib": r.randint(0, 2),
-        "bb": r.randint(0, 2),
+        "bb": r.choice([0, 0, 1, 1, 2, 2, 3]),
         "ways": ways,
         "kind": r.choice(["wb", "wt"]) if data else "wt",
         "strat": strat,
